@@ -299,6 +299,10 @@ class Program:
     # -- keys -------------------------------------------------------------------------
     def _key(self, fn):
         """Readable key that does not depend on impl ordinals or line numbers."""
+        if fn.kind == "promoted":
+            po = self.fns.get(fn.raw.get("promoted_of"))
+            base = (po.key or self._key(po)) if po is not None else fn.raw.get("promoted_of", "?")
+            return base + fn.id[fn.id.rindex("::{promoted#"):]
         if fn.impl is not None:
             st = self.tstr(fn.crate, fn.impl["self"])
             if fn.impl.get("trait"):
